@@ -70,8 +70,10 @@ func (j *cacheJanitor[MetadataT]) start(ctx context.Context) {
 				j.ensureCacheSize()
 				metrics.Global.Cache.CleanupRuns.Increment()
 				slog.Info("Cache cleanup cycle complete")
-			case newInterval := <-j.intervalChanged:
-				j.interval = newInterval
+			case <-j.intervalChanged:
+				// Notifications of quick successive changes can arrive in either order: use the
+				// interval that is configured now, not the one this notification carries.
+				j.interval = j.cfg.Cache.CleanupInterval.Read().Cast()
 				ticker.Reset(j.interval)
 				slog.Info("Cache cleanup ticker reset", "new_interval", j.interval)
 			case <-j.stopChan:
